@@ -328,8 +328,10 @@ end
 /-! ## the block stream handed to the DAG service
 
 `addFile`: the layout adds the file's blocks (post-order), `addNode` → `mfs.PutNode` adds the file root again;
-`addSymlink`: the node, and again through `PutNode`; directories are added when go-mfs flushes them (children
-before parents here; go-mfs walks its cache in map order and may add a directory several times); without
+`addSymlink`: the node, and again through `PutNode`; `addDir` below the top level: `mfs.Mkdir` adds the *empty*
+directory node (a block that is under the root only if the tree has an empty directory); directories are added
+when go-mfs flushes them (children before parents here; go-mfs walks its cache in map order and may add a
+directory several times); without
 wrapping a single file or symlink is put into the MFS root under its CID as name: that directory block is
 added too although it is not under the returned root (`scaffold`); `PinRoot` adds the root once more. -/
 
@@ -337,10 +339,21 @@ mutual
 def emitEntry {β : Type} (p : Params) : Entry β → List (UNode (List β))
   | .file b => (importFile p b).emitted.map .file ++ [.file (importFile p b).node]
   | .symlink t => [.symlink t, .symlink t]
-  | .dir es => emitEntries p es ++ [.dir (sortLinks (importEntries p es))]
+  | .dir es => [.dir []] ++ emitEntries p es ++ [.dir (sortLinks (importEntries p es))]
 def emitEntries {β : Type} (p : Params) : List (String × Entry β) → List (UNode (List β))
   | [] => []
   | (_, e) :: rest => emitEntry p e ++ emitEntries p rest
+end
+
+mutual
+/-- the empty directory nodes `mfs.Mkdir` adds, one per directory below the top level -/
+def mkdirs {β : Type} : Entry β → List (UNode (List β))
+  | .file _ => []
+  | .symlink _ => []
+  | .dir es => .dir [] :: mkdirsL es
+def mkdirsL {β : Type} : List (String × Entry β) → List (UNode (List β))
+  | [] => []
+  | (_, e) :: rest => mkdirs e ++ mkdirsL rest
 end
 
 /-- the MFS root that holds a lone file or symlink under its CID string -/
@@ -354,7 +367,10 @@ def emitStream {β : Type} (nameOf : UNode (List β) → String) (p : Params) (t
   | some r =>
     (if p.wrap then emitEntries p (visibleTop p.hidden top) ++ [r]
      else match top with
-       | [(_, e)] => emitEntry p (visible p.hidden e)
+       | [(_, e)] =>
+         match visible p.hidden e with
+         | .dir es => emitEntries p es ++ [r]   -- the top-level directory is the MFS root itself: no Mkdir
+         | e' => emitEntry p e'
        | _ => []) ++ scaffold nameOf r ++ [r]
 
 /-! ## the DAG service behind the importer, as far as the importer can tell
